@@ -179,6 +179,12 @@ def setup():
     ok2, msg, _ = build_harness()
     if not ok2:
         print("SETUP:", msg); return 1
+    # warm the compile corpus' own target directory (C19 compile stream)
+    try:
+        import compile_stream
+        compile_stream.run_compile_stream("C19", {}, "quick", 1, WORK)
+    except Exception as e:
+        print("SETUP: compile corpus warm-up failed:", e)
     print(f"SETUP ok in {time.time() - t:.0f}s")
     return 0
 
@@ -330,6 +336,8 @@ def classify(fields):
     ev = set()
     ev.add("op:" + o[0])
     removed = [k for k in pe if k not in qe]
+    if any(k not in pe for k in pq):
+        ev.add("orphan-queue-key-in-pre-state")
     if o[0] in ("ins", "insm"):
         k = o[1]
         others_removed = [x for x in removed if x != k]
